@@ -16,7 +16,7 @@ LEVEL = "fault_enumeration"
 ALT_MOUNT = True          # run once more with procfs mounted at /hostproc (vf/child.py)
 EPS = 1e-6
 POLL_MAX = 0.04
-BUDGET = 3000
+BUDGET = 8000
 
 
 class Budget(Exception):
@@ -202,6 +202,10 @@ def scenarios(seed, thorough):
                     out.append((seed, sub, to, e, ei, 0.0, False))
                 for ov in (0.003, 0.02):
                     out.append((seed, sub, to, e, (), ov, False))
+    # scale: waits that need more than a thousand polls (the back-off has long reached its 40 ms ceiling)
+    for sub in (SUBJECTS[1], SUBJECTS[4], SUBJECTS[10]):
+        for to in (None, 60, 44.9):
+            out.append((seed, sub, to, 45.0, (), 0.0, False))
     # wall-clock steps during the wait
     for sub in (SUBJECTS[1], SUBJECTS[4], SUBJECTS[7]):
         for to in (0.05, 0.3):
@@ -322,6 +326,51 @@ def proc_scenarios(seed, thorough):
     return out
 
 
+# ------------------------------------------------------------------ two processes, one pid
+def run_reuse(arg):
+    """a child is waited for (status cached on ITS object); its pid is then given to another process -- a non-child, or a
+    child that someone else reaps: wait() on the new object says what is true of the NEW process"""
+    seed, code, second = arg
+    import psutil
+    w = World(ncpus=1)
+    w.spawn(1, ppid=0, comm=b"init", start=1)
+    w.spawn(w.mypid, ppid=1, comm=b"caller", start=50)
+    pid = 3300 + seed % 40
+    p = w.spawn(pid, ppid=w.mypid, comm=b"first", start=900)
+    p.is_child = True
+    use_world(w)
+    w.logging = False
+    bad = []
+    o1 = psutil.Process(pid)
+    w.exit(pid, code << 8)
+    r1 = outcome(o1.wait, 1)
+    if r1 != ("ok", code):
+        bad.append(("reuse:first-wait", "first process exited with %d: wait() -> %r" % (code, r1)))
+    w.tick(300)
+    q = w.spawn(pid, ppid=1 if second == "other" else w.mypid, comm=b"second")
+    q.is_child = second != "other"
+    o2 = psutil.Process(pid)
+    if second == "other":
+        w.at(w.mono + 0.02, lambda ww: ww.vanish(pid))
+        want = None
+    elif second == "child7":
+        w.at(w.mono + 0.02, lambda ww: ww.exit(pid, 7 << 8))
+        want = 7
+    else:
+        want = "timeout"
+    r2 = outcome(o2.wait, 0.2)
+    if want == "timeout":
+        if not (r2[0] == "exc" and r2[1] == "TimeoutExpired"):
+            bad.append(("reuse:status-of-the-previous-owner", "pid %d now belongs to a live child: wait(0.2) -> %r" % (pid, r2)))
+    elif r2 != ("ok", want):
+        bad.append(("reuse:status-of-the-previous-owner", "the first owner of pid %d exited with %d and was waited for; the second (%s) ended with %r: wait() -> %r"
+                    % (pid, code, second, want, r2)))
+    r3 = outcome(o1.wait, 0)
+    if r3 != ("ok", code):
+        bad.append(("reuse:first-object-forgot", "old object's wait() -> %r, expected the cached %d" % (r3, code)))
+    return bad, "reuse"
+
+
 # ------------------------------------------------------------------ psutil.Popen on the real kernel
 POPEN_ENDS = [("exit", 0), ("exit", 3), ("exit", 255), ("sig", 9), ("sig", 15)]
 POPEN_SEQS = [("wait", "wait"), ("wait", "poll", "wait"), ("wait", "communicate", "wait"), ("wait", "ctx", "wait"),
@@ -414,13 +463,18 @@ def run(ctx):
         labels["procs:" + lab] = labels.get("procs:" + lab, 0) + 1
         for cause, msg in bad:
             viols.append({"cause": cause, "msg": msg, "case": {"procs": [a[0], list(a[1]), list(a[2]), a[3], a[4], a[5]] + list(a[6:])}})
+    rc_ = [(ctx.seed, code, second) for code in (0, 3, 255) for second in ("other", "child7", "alive")]
+    for a, (bad, lab) in zip(rc_, ctx.pmap(run_reuse, rc_)):
+        labels[lab] = labels.get(lab, 0) + 1
+        for cause, msg in bad:
+            viols.append({"cause": cause, "msg": msg, "case": {"reuse": list(a)}})
     pc = [(e, q) for e in POPEN_ENDS for q in POPEN_SEQS]
     for a, (bad, lab) in zip(pc, ctx.pmap(live_popen, pc, chunk=1)):
         labels[lab] = labels.get(lab, 0) + 1
         for cause, msg in bad:
             viols.append({"cause": cause, "msg": msg, "case": {"popen": [list(a[0]), list(a[1])]}})
-    cov = {"popen_live_sequences": len(pc),
-           "evaluations": len(sc) + len(ps) + len(pc), "distinct_nontrivial": len({repr(a) for a in sc}) + len({repr(a) for a in ps}) + len(pc),
+    cov = {"popen_live_sequences": len(pc), "pid_reuse_sequences": len(rc_),
+           "evaluations": len(sc) + len(ps) + len(pc) + len(rc_), "distinct_nontrivial": len({repr(a) for a in sc}) + len({repr(a) for a in ps}) + len(pc),
            "rule": "one evaluation = one execution of Process.wait()/wait_procs() in virtual time for one (subject kind, timeout, exit "
                    "instant, EINTR set, sleep overshoot) / (process kinds, exit-instant vector, timeout, callback); exit instants cover "
                    "every polling instant of the dry run, every midpoint and the deadline neighbourhood; distinct by construction",
@@ -432,6 +486,9 @@ def run(ctx):
 
 
 def replay(ctx, case):
+    if "reuse" in case:
+        bad, _ = run_reuse(tuple(case["reuse"]))
+        return {"violated": bool(bad), "viols": bad}
     if "popen" in case:
         bad, _ = live_popen((tuple(case["popen"][0]), tuple(case["popen"][1])))
         return {"violated": bool(bad), "viols": bad}
